@@ -9,3 +9,4 @@ import PhyloModel.Props.C07
 #print axioms C07.iabs_mul
 #print axioms C07.rescaling
 #print axioms C07.branch_listing
+#print axioms C07.symmetric
